@@ -235,25 +235,43 @@ def core_tie(timeout=1200):
         new = open(gen).read()
         if not os.path.exists(cur) or open(cur).read() != new:
             open(cur, 'w').write(new)
+        # record views, SeqLines, id/desc, writer loops, record-set and owned iterators (tools/translate_views.py)
+        tv = os.path.join(ROOT, 'tools', 'translate_views.py')
+        if os.path.exists(tv):
+            rc, out = run([sys.executable, tv, REPO, tmp], timeout=300)
+            errs = [l for l in out.split('\n') if 'TRANSLATE-VIEWS-ERROR' in l]
+            if rc != 0 or errs:
+                return {'status': 'untranslatable', 'detail': (errs[0] if errs else out[-300:])[:400]}
+            for fn in ('ViewsGen.v', 'RecordsGen.v'):
+                g = os.path.join(tmp, fn)
+                if os.path.exists(g):
+                    c = os.path.join(CORE, fn)
+                    if not os.path.exists(c) or open(c).read() != open(g).read():
+                        open(c, 'w').write(open(g).read())
         mk = os.path.join(CORE, 'Makefile')
         cp = os.path.join(CORE, '_CoqProject')
         if not os.path.exists(mk) or os.path.getmtime(mk) < os.path.getmtime(cp):
             run(['coq_makefile', '-f', '_CoqProject', '-o', 'Makefile'], cwd=CORE)
         rc, out = run(['make'], cwd=CORE, timeout=timeout)
+        if rc != 0 and 'inconsistent assumptions' in out:
+            # the main project was rebuilt underneath: compile the sub-project from scratch
+            run(['make', 'clean'], cwd=CORE)
+            rc, out = run(['make'], cwd=CORE, timeout=timeout)
         if rc != 0:
-            m = re.search(r'File "\./CoreGenP\.v", line (\d+)', out)
+            m = re.search(r'File "\./(\w+GenP)\.v", line (\d+)', out)
             lemma = ''
             if m:
-                ln = int(m.group(1))
-                for i, l in enumerate(open(os.path.join(CORE, 'CoreGenP.v')), 1):
+                ln = int(m.group(2))
+                for i, l in enumerate(open(os.path.join(CORE, m.group(1) + '.v')), 1):
                     mm = re.match(r'^\s*(?:Lemma|Theorem|Example)\s+(\w+)', l)
                     if mm and i <= ln:
                         lemma = mm.group(1)
             return {'status': 'differs', 'detail': ('equality %s no longer checks: ' % lemma if lemma else '') + out[-300:].replace('\n', ' ')[:300]}
         if 'Axioms:' in out or 'Admitted' in out:
             return {'status': 'differs', 'detail': 'an equality lemma of coq/core depends on an axiom: ' + out[-200:]}
-        nlem = len(re.findall(r'^\s*(?:Lemma|Theorem)\s+gen_\w+', open(os.path.join(CORE, 'CoreGenP.v')).read(), re.M))
-        return {'status': 'equal', 'detail': '%d generated definitions proved equal to the model (coq/core/CoreGenP.v)' % nlem}
+        nlem = sum(len(re.findall(r'^\s*(?:Lemma|Theorem)\s+gen_\w+', open(os.path.join(CORE, f)).read(), re.M))
+                   for f in ('CoreGenP.v', 'ViewsGenP.v', 'RecordsGenP.v') if os.path.exists(os.path.join(CORE, f)))
+        return {'status': 'equal', 'detail': '%d equalities between definitions generated from the source and the model (coq/core/*GenP.v)' % nlem}
 
 
 def coqchk(prop, timeout=3000):
